@@ -36,6 +36,15 @@ Theorem C15_history : forall fl d0 pre mid id,
 Proof. exact history_no_reanalysis. Qed.
 Print Assumptions C15_history.
 
+(* "analysed once" also covers `fan init`: a start of fan [id] that follows a successful `fan init` of [id]
+   (no reset / further init in between) reuses what init measured and stored -- no sweep, no measurement *)
+Theorem C15_after_init : forall fl d0 pre mid id,
+  ~ In Err (acts fl (exec fl d0 pre) (Init id)) ->
+  (forall c, In c mid -> c <> Reset id /\ c <> Init id) ->
+  analysis_free (acts fl (exec fl (exec fl d0 pre) (Init id :: mid)) (Start id)).
+Proof. exact init_then_start_no_reanalysis. Qed.
+Print Assumptions C15_after_init.
+
 (* the four statements together, in the form the observer of the correspondence run checks them:
    for ALL fleets, initial databases and command sequences the model's own trace passes the observer
    [holdsb] (= [Holds], Drv.Startup.holdsb_spec); hence a case on which implementation and model agree holds. *)
@@ -69,6 +78,12 @@ Proof.
   split; [vm_compute; intuition|].
   intros c H. cbn in H. intuition (subst; discriminate).
 Qed.
+
+(* `fan init` analyses (sweep + measurement), stores, and the following start goes straight to regulation *)
+Example C15_init_then_start :
+  acts ex_fleet ex_db0 (Init 7) = [Lock; Sweep; SavedMap; SavedMap; MeasureRpm; SavedData; Unlock]
+  /\ acts ex_fleet (exec ex_fleet ex_db0 [Init 7]) (Start 7) = [LoadedData; LoadedData; Lock; LoadedMap; Unlock; Regulate].
+Proof. split; vm_compute; reflexivity. Qed.
 
 (* `fan reset` discards: the next start analyses again *)
 Example C15_reset_discards :
